@@ -671,7 +671,9 @@ func rwMode(args []string) {
 			}
 			// reader failures at several offsets
 			offs := []int{0, 1, len(doc) / 2, len(doc) - 1, len(doc)}
-			for _, off := range offs {
+			readErrs := []error{errReader, io.ErrUnexpectedEOF, io.ErrClosedPipe, io.ErrNoProgress, fmt.Errorf("wrapped: %w", io.EOF), io.ErrShortBuffer}
+			for oi, off := range offs {
+				errReader := readErrs[(oi+j)%len(readErrs)]
 				if off < 0 || off > len(doc) {
 					continue
 				}
